@@ -171,6 +171,9 @@ def run(tier, seed, replay):
         "overdeco": {"constructor": "NewA", "arguments": ["@viadeco"]},
         "value": {"value": "&MyStruct{}", "fields": {"Dep": "@cx"}},
     }, "decorators": [{"tag": "dd", "decorator": "Decorate", "arguments": ["@cx"]}]}
+    for n_, sv_ in imp["services"].items():
+        if "constructor" in sv_:
+            sv_.update({"getter": "Get" + n_.capitalize(), "must_getter": True, "type": "*T"})
     import random as _rnd
     for j in range(3 if tier == "quick" else 30):
         rr_ = _rnd.Random("%s/c05imp/%d" % (seed, j))
@@ -178,6 +181,11 @@ def run(tier, seed, replay):
         for _ in range(40):
             n_ = rr_.choice(list(imp["services"]))
             h_.append(rr_.choice([{"op": "get", "name": n_}, {"op": "getctx", "ctx": rr_.randint(1, 3), "name": n_}, {"op": "getctx", "ctx": rr_.randint(1, 3), "name": n_}]))
+            if "getter" in imp["services"][n_] and rr_.random() < 0.5:
+                g_ = imp["services"][n_]["getter"]
+                # the generated getters are Get / GetInContext under another name: same instances
+                h_.append(rr_.choice([{"op": "getter", "name": g_, "svc": n_}, {"op": "getter", "name": "Must" + g_, "svc": n_},
+                                      {"op": "getterctx", "ctx": rr_.randint(1, 3), "name": g_ + "InContext", "svc": n_}, {"op": "getterctx", "ctx": rr_.randint(1, 3), "name": "Must" + g_ + "InContext", "svc": n_}]))
             if rr_.random() < 0.05:
                 h_.append({"op": "newctx", "ctx": rr_.randint(1, 3)})
         sp_ = common.mk_spec(len(rs), [imp], keep_out=True)
@@ -198,6 +206,8 @@ def run(tier, seed, replay):
                 for key in [x for x in seen if isinstance(x, tuple) and x[0] == "cxby"]:
                     seen[key].pop(o["ctx"], None)
                 continue
+            if o["op"] in ("getter", "getterctx") and o.get("svc") and line.startswith("O("):
+                o = {"op": "get" if o["op"] == "getter" else "getctx", "name": o["svc"], "ctx": o.get("ctx")}
             if o["op"] not in ("get", "getctx") or not line.startswith("O("):
                 continue
             sv = cfg["services"].get(o["name"]) or {}
